@@ -42,9 +42,11 @@ class Agg:
         self.reach = {"funcs": [], "lines": {}}
 
     def add_case(self, i, res):
-        self.evaluations += 1
+        self.evaluations += int(res.get("evaluations", 1))
         if res.get("nontrivial") and res.get("digest"):
             self.digests.add(res["digest"])
+        for dg in res.get("digests") or ():
+            self.digests.add(dg)
         for k, v in (res.get("counters") or {}).items():
             self.counters[k] += v
         for k, v in (res.get("sets") or {}).items():
